@@ -9,14 +9,19 @@ var notValidated = map[string]string{
 	"io.(Closer) Close": "interface method (every implementation is a different function); " + ghostDef,
 	"io.(Writer) Write": "interface method (every implementation is a different function); " + ghostDef,
 
-	"os.MkdirAll":           ghostDef,
-	"os.Remove":             ghostDef,
-	"os.RemoveAll":          ghostDef,
-	"os.Rename":             ghostDef,
-	"os.(File) Close":       ghostDef + " (j_lastFileClose records err)",
-	"os.(File) Read":        "no ensures clause (frame only)",
-	"os.(File) Name":        "no ensures clause (purity only); an accessor of an open file",
-	"net/http.(Header) Set": ghostDef + " (ghost.hdrVals collects the values set)",
+	"os.MkdirAll":                           ghostDef,
+	"os.Remove":                             ghostDef,
+	"os.RemoveAll":                          ghostDef,
+	"os.Rename":                             ghostDef,
+	"os.(File) Close":                       ghostDef + " (j_lastFileClose records err)",
+	"os.(File) Read":                        "no ensures clause (frame only)",
+	"os.(File) Name":                        "no ensures clause (purity only); an accessor of an open file",
+	"os/exec.LookPath":                      "no ensures clause (frame only); depends on PATH and the file system",
+	"sync/atomic.(Int64) Add":               "no ensures clause: the counter value is not modelled",
+	"bytes.(Buffer) Grow":                   "no ensures clause (frame only: capacity is not modelled)",
+	"encoding/xml.(Encoder) Indent":         "no ensures clause (frame only)",
+	"github.com/jdx/go-netrc.(Machine) Get": "no ensures clause (purity only); exercised indirectly by the Machine check",
+	"net/http.(Header) Set":                 ghostDef + " (ghost.hdrVals collects the values set)",
 
 	"path/filepath.EvalSymlinks": "no ensures clause; the purity assumption cannot be validated: the result depends on the file system, not on the argument alone (the environment is assumed frozen during a call)",
 	"path/filepath.Abs":          "no ensures clause; the purity assumption cannot be validated: the result depends on the working directory, not on the argument alone (assumed fixed during a call)",
@@ -41,6 +46,13 @@ var notValidated = map[string]string{
 
 // by prefix of "pkg.name"
 var notValidatedPrefix = [][2]string{
+	{".axiom v_opt-carries-bucket", "v_optReadBucket is an uninterpreted function of an option CLOSURE (WriteResponseWithInsertionPointReadBucket(b)); closures cannot be inspected or compared: nothing observable (the closure body itself is verified)"},
+	{".axiom v_ws-def", "leadingWhitespace is an unexported function of bufprotoplugin; the axiom DEFINES v_ws through it"},
+	{".axiom b_tagRangeWellFormed", "a fact about every implementation of the bufprotosource.TagRange interface; needs descriptor objects built from compiled images"},
+	{".axiom a_type-kind-link", "relates bufprotosource.Field.Type() to protoreflect descriptors of the same field; needs compiled images as inputs"},
+	{"github.com/bufbuild/buf/private/gen/proto/go/buf/alpha/image/v1.", "no ensures clause (purity only): generated getters; what they return is checked through the Build() contracts"},
+	{"github.com/bufbuild/buf/private/bufpkg/bufprotoplugin", "interface contract of the repo's response writers: ghost call log and sink flags; the implementation is verified, nothing to run in isolation"},
+	{"github.com/bufbuild/buf/private/buf/bufctl.", "interface method of the controller (I/O boundary, concurrent implementation); ghost bookkeeping"},
 	{"sync.", "no ensures clause: locks are no-ops in the sequential model (concurrency is outside every contract)"},
 	{"log/slog.", "no ensures clause (purity only): attribute constructors, the values are never inspected"},
 	{"io/fs.(FileMode)", "no ensures clause (purity only)"},
@@ -75,7 +87,8 @@ Status values:
   The failing check is kept: ` + "`bounded`" + ` exits with status 1 until the contract is corrected. (Round 1 found nine such contracts:
   syserror.Wrap, Buffer.WriteRune, strings.ReplaceAll / Split / SplitN, sort.Search, errors.As, StripSourceRetentionOptions,
   NewPackageVersionForPackage; all were corrected in the spec files - look for "(bounded validation: ...)" comments - and the
-  checks below are translated from the corrected clauses.)
+  checks below are translated from the corrected clauses. Round 3 found three clauses of the bufio.Scanner model of
+  C17_writer.spec wrong for calls outside the usual ` + "`for sc.Scan() { sc.Bytes() }; sc.Err()`" + ` protocol: see below.)
 * **not validated: reason** — nothing was run.
 
 Clauses about ghost state (` + "`ghost.fail == (old(ghost.fail) || err != nil)`" + `, touched-path sets, counters) define the ghost
@@ -89,7 +102,7 @@ const coverageFooter = `
 | where | function | status |
 |---|---|---|
 | gocv/internal/gocv/exec_expr.go (errors.Join with a literal argument list) | ` + "`errors.Join`" + ` | same statement as std/errors.spec errors.Join: see there |
-| gocv/internal/gocv/exec_call.go sortSliceIntrinsic + sortComparatorObligations | ` + "`sort.Slice`, `sort.SliceStable`" + ` with a literal comparator | the engine first emits #sort-comparator[N.irreflexive / transitive / ties-transitive] for the comparator (over indexes of the slice at the call) and then assumes: permutation + "for all a < b the comparator on (b, a) is false". Validated: for ALL 512 relations on a 3-value domain used as comparator on (x[i], x[j]) and 6 named comparators (long inputs included), whenever the obligations hold the assumptions hold. **Open**: a comparator that depends on the indexes themselves can pass the obligations and break the assumption: ` + "`func(i, j int) bool { return i > j }`" + ` (see the check "comparators that depend on the INDEXES"); ` + "`i < j`" + ` and the tiebreak ` + "`x[i] < x[j] || (x[i] == x[j] && i < j)`" + ` are fine. No comparator in the verified code uses its indexes other than as x[i] / x[j]. |
+| gocv/internal/gocv/exec_call.go sortSliceIntrinsic + sortComparatorObligations | ` + "`sort.Slice`, `sort.SliceStable`" + ` with a literal comparator | the engine rejects comparators that use their index parameters other than as subscripts of the sorted slice (comparatorUsesIndexesOnlyAsSubscripts), emits #sort-comparator[N.irreflexive / transitive / ties-transitive], and then assumes: permutation + "for all a < b the comparator on (b, a) is false". Validated: for ALL 512 relations on a 3-value domain used as comparator on (x[i], x[j]) and 6 named comparators (long inputs included), whenever the obligations hold the assumptions hold. (Round 2 found that ` + "`func(i, j int) bool { return i > j }`" + ` passed the obligations and broke the assumption; such comparators are now out of fragment, so nothing is modelled and nothing is checked for them.) |
 | gocv/internal/gocv/exec_expr.go (calls through function values) | callbacks | ghost bookkeeping (ghost.cbCalls, ghost.fail): definitions |
 
 ## Not importable / skipped repo packages
